@@ -752,6 +752,58 @@ func TestProbeSameBlockSameAccount(t *testing.T) {
 		"two miner-apply transactions in one block naming the same account both succeed (service.MinerManager.GetMinerIdByAccount iterates the storage trie, which lacks the first miner until the block is finalised): one account controls two miners")
 }
 
+// Probe for F-C20-d (the reverse direction of F-C20-b): a miner whose id is sha256(id') of a miner that does
+// not exist yet is accepted; when id' applies later, its stake slot sha256(id') is the first miner's record.
+func TestProbeReverseAliasId(t *testing.T) {
+	salt := fmt.Sprintf("c20-probe-rev-%d", os.Getpid())
+	k0, k1 := txgen.K(0), txgen.K(1)
+	fund := []*types.Transaction{
+		txgen.Transfer(txgen.Faucets[0], nil, [][2]string{{k0.Addr, "1000"}}, 1, salt+"f0"),
+		txgen.Transfer(txgen.Faucets[0], nil, [][2]string{{k1.Addr, "1000"}}, 2, salt+"f1"),
+	}
+	h1 := &types.BlockHeader{Height: 1, Castor: []byte{9}, GroupId: []byte("no-such-group"), CurTime: time.Date(2024, 5, 1, 0, 0, 0, 0, time.UTC)}
+	r1 := boot.Exec(genesisRoot, 0, h1, fund, "fullverify")
+	if r1.Panic != nil {
+		t.Fatalf("funding: %v", r1.Panic)
+	}
+	root, err := boot.Persist(r1.State)
+	if err != nil {
+		t.Fatal(err)
+	}
+	x := common.Sha256(k1.ID)
+	a := txgen.MinerApply(k0, txgen.MinerData{Id: common.ToHex(x), Type: 0, Stake: 400, PublicKey: "0x01", VrfPublicKey: []byte{1}}, 1, salt+"a")
+	h2 := &types.BlockHeader{Height: 2, Castor: []byte{9}, GroupId: []byte("no-such-group"), CurTime: time.Date(2024, 5, 1, 0, 0, 1, 0, time.UTC)}
+	r2 := boot.Exec(root, 1, h2, []*types.Transaction{a}, "fullverify")
+	if r2.Panic != nil || len(r2.Receipts) != 1 {
+		t.Fatalf("exec: %v", r2.Panic)
+	}
+	root2, err := boot.Persist(r2.State)
+	if err != nil {
+		t.Fatal(err)
+	}
+	b := txgen.MinerApply(k1, txgen.MinerData{Type: 0, Stake: 400, PublicKey: "0x01", VrfPublicKey: []byte{1}}, 1, salt+"b")
+	h3 := &types.BlockHeader{Height: 3, Castor: []byte{9}, GroupId: []byte("no-such-group"), CurTime: time.Date(2024, 5, 1, 0, 0, 2, 0, time.UTC)}
+	r3 := boot.Exec(root2, 2, h3, []*types.Transaction{b}, "fullverify")
+	if r3.Panic != nil || len(r3.Receipts) != 1 {
+		t.Fatalf("exec: %v", r3.Panic)
+	}
+	root3, err := boot.Persist(r3.State)
+	if err != nil {
+		t.Fatal(err)
+	}
+	st, err := boot.OpenState(root3)
+	if err != nil {
+		t.Fatal(err)
+	}
+	firstOK := r2.Receipts[0].Status == types.ReceiptStatusSuccessful
+	secondOK := r3.Receipts[0].Status == types.ReceiptStatusSuccessful
+	got := service.MinerManagerImpl.GetMiner(x, st)
+	lost := firstOK && (got == nil || got.Stake != 400)
+	stats.Probe(t, "F-C20-d", "C20", lost, fmt.Sprintf(
+		"apply(K0, id=sha256(id of K1), stake 400) succeeds (%v); a later apply(K1, derived id, stake 400) succeeds (%v) and writes its stake into the slot holding the first miner's record: looking the first miner up by id now gives %v",
+		firstOK, secondOK, got))
+}
+
 // ownedRecords lists the miners of this history (active or aborted with stake left) whose account is one of the
 // harness keys, in a stable order.
 func ownedRecords(md *model) []*rec {
